@@ -23,7 +23,7 @@ RULE = ('Pairs (old, new) of configurations with same-typed Buildable roots: new
         'in place; diff, new and old unmodified; diff(c, deepcopy(c)) empty. Non-trivial: >=1 '
         'edit applied and >=2 Buildables; distinct = (old sketch, new sketch).')
 RULE_ADDITIONS = (' Added by the rounds of seeded changes (DESIGN 9.7): ' +
-                  'build-diff-raises:positional-argument | TypeError | known unless a small patch emerges; bound classmethods as callables')
+                  'build-diff-raises:positional-argument | TypeError | known unless a small patch emerges; bound classmethods as callables; swaps to a callable whose annotation tags new partly removed; defaultdict values, keys only in old')
 RULE = RULE + RULE_ADDITIONS
 ASSUMPTIONS = [
     "equality of configurations = vf.canon 'cfg-exact' (callables, explicitly set arguments, "
